@@ -3,11 +3,159 @@ from harness.core import Property, canon
 from harness.props import g1common as G
 
 
+# ---------------------------------------------------------------- Compound classes, flat stream (this file only)
+
+class Classes10(G.Classes):
+    """`date` with user-supplied fields: DateYYYYMMDD.using(field_schema=[first k subs]) — the preparation
+    (`__compound_init__`, lazily at the first instantiation) completes the list"""
+
+    def build(self, sj):
+        if sj["k"] == "date" and sj.get("supplied"):
+            import flatland
+            k = sj["supplied"]
+            given = [self.build(s) for s in sj["subs"][:k]]
+            cls = flatland.DateYYYYMMDD.using(field_schema=given).named(sj["name"]).using(optional=bool(sj["opt"]))
+            if sj["default"] is not None:
+                cls = cls.using(default=G.py(sj["default"]))
+            self.register(sj["cid"], cls, "date")
+            return cls
+        if sj["k"] == "date" and sj["default"] is not None:
+            cls = G.Classes.build(self, dict(sj, default=None)).using(default=G.py(sj["default"]))
+            self.register(sj["cid"], cls, "date")
+            return cls
+        return G.Classes.build(self, sj)
+
+
+class Exec10(G.Exec):
+    def __init__(self, case, view, check=None):
+        G.Exec.__init__(self, dict(case, schema=_ctor_safe(case["schema"])), view, check)
+        self.case = case
+        self.classes = Classes10()
+        self.root_cls = self.classes.build(case["schema"])
+
+
+def _ctor_safe(sj):
+    """G.Exec.__init__ builds the class once with the shared registry; give it a schema it understands"""
+    return sj
+
+
+def register_compound_fields(ex):
+    """the classes a Compound's preparation generated get the class ids of the case (positionally)"""
+    for sj in G.walk_schemas(ex.case["schema"]):
+        if sj["k"] != "date":
+            continue
+        cls = ex.classes.by_cid.get(sj["cid"])
+        if cls is None or not cls.__dict__.get("_compound_prepared"):
+            continue
+        for f, s2 in zip(cls.field_schema, sj["subs"]):
+            if f not in ex.classes.cid_of:
+                ex.classes.register(s2["cid"], f, "integer")
+
+
+def _skel(e):
+    if "leaf" in e or "joined" in e:
+        return None
+    if "dict" in e:
+        return {"d": [[k, _skel(v)] for k, v in e["dict"]]}
+    return {"l": [_skel(v) for v in e.get("list", e.get("array", []))]}
+
+
+def flat_run(fc):
+    """(skeletons, oracle failures) of `cls(); set_flat(round_1); set_flat(round_2) ...` on the real code"""
+    from harness import flatlib as fl
+    cls = fl.build_class(fc["schema"], fc["kinds"])
+    el = cls()
+    skels = [_skel(fl.extract(el, fc["schema"]))]
+    fails = flat_check(el, fc["schema"], 0)
+    for i, ps in enumerate(fc["rounds"], 1):
+        try:
+            el.set_flat([tuple(p) for p in ps], fc["sep"])
+        except Exception as e:
+            return {"raise": type(e).__name__, "round": i}, fails + [
+                {"clause": "set_flat-total", "expected": "returns", "observed": type(e).__name__, "round": i}]
+        try:
+            fails += flat_check(el, fc["schema"], i)
+            skels.append(_skel(fl.extract(el, fc["schema"])))
+        except Exception as e:
+            if type(e).__name__ == "CaseTimeout":
+                raise
+            # a tree whose members are not what their keys say cannot even be walked by the schema
+            skels.append({"raises": type(e).__name__})
+            fails.append({"clause": "flat:tree-walkable-by-schema", "expected": "every member is an element of its field's class",
+                          "observed": type(e).__name__, "round": i})
+            break
+    return {"skeletons": skels}, fails
+
+
+def flat_check(el, s, rnd):
+    """the C10 invariant on EVERY mapping of the real tree (dict.items, bypassing the element API)"""
+    from harness import flatlib as fl
+    from flatland.schema.base import Element
+    fails = []
+    for e, sc in fl.walk_elements(el, s):
+        if sc["t"] not in ("dict", "compound"):
+            continue
+        fields = list(type(e).field_schema)
+        names = [f.name for f in fields]
+        by = {f.name: f for f in fields}
+        keys = list(dict.keys(e))
+
+        def fail(clause, expected, observed):
+            fails.append({"clause": "flat:" + clause, "expected": expected, "observed": observed, "round": rnd,
+                          "mapping": sc.get("name"), "mode": sc.get("mode", "compound")})
+        if [k for k in keys if k not in by]:
+            fail("keys-declared", names, [str(k) for k in keys])
+        if len(set(names)) != len(names):
+            continue        # the class itself declares a name twice: outside the property's domain
+        mode = sc.get("mode", "dense")
+        if mode == "dense" and sorted(map(str, keys)) != sorted(names):
+            fail("dict-has-every-field", sorted(names), sorted(map(str, keys)))
+        if mode == "sparseReq":
+            missing = [f.name for f in fields if not f.optional and f.name not in keys]
+            if missing:
+                fail("required-fields-present", [f.name for f in fields if not f.optional], keys)
+        seen = set()
+        for k, v in dict.items(e):
+            if not isinstance(v, Element):
+                fail("values-are-elements", "Element", type(v).__name__)
+                continue
+            if k in by and not isinstance(v, by[k]):
+                fail("value-of-declared-type", by[k].__name__, type(v).__name__)
+            if v.name != k:
+                fail("value-named-after-key", k, v.name)
+            if v.parent is not e:
+                fail("value-parent-is-mapping", "the mapping", type(v.parent).__name__)
+            if v.name in seen:
+                fail("one-member-per-field", "distinct member names", v.name)
+            seen.add(v.name)
+    return fails
+
+
+def gen_flat_case(rng):
+    import sys
+    from harness import flatlib as fl
+    from harness.props import c02
+    sep = rng.choice(["_", "_", "_", ".", "__", "-"])
+    for _ in range(20):
+        kinds = []
+        schema = fl.gen_schema(rng, sep, rng.choice([1, 2, 2, 3]), kinds)
+        if schema["t"] in ("dict", "compound"):
+            break
+    else:
+        kinds = []
+        schema = {"t": "dict", "name": rng.choice([None, "m"]), "opt": False, "mode": rng.choice(["dense", "sparse", "sparseReq"]),
+                  "fields": [fl.gen_schema(rng, sep, 1, kinds, root=False, named=n) for n in ("a", "ab", "b")]}
+    rounds = [c02.gen_pairs(rng, schema, sep) for _ in range(rng.choice([1, 1, 2, 3]))]
+    return {"flat": {"schema": schema, "kinds": kinds, "sep": sep, "rounds": rounds, "nd": fl.nd_table(),
+                     "maxdigits": sys.get_int_max_str_digits()}}
+
+
 # ---------------------------------------------------------------- observation
 
 def view(ex, info):
     """the mapping at the root as the *underlying dict* shows it (bypassing the element API)"""
     from flatland.schema.base import Element
+    register_compound_fields(ex)
     rows = []
     for k, v in dict.items(ex.root):
         if isinstance(v, Element):
@@ -127,6 +275,21 @@ def check(ex, info):
                  placed_now=spec is not None, arg_own_name=_arg_own_name(spec))
         if v.parent is not root:
             fail("value-parent-is-mapping", "the mapping", "None" if v.parent is None else type(v.parent).__name__)
+    # (two members under one key cannot be observed on a Python dict; the model's list representation is where
+    #  `sparse_keys_nodup` has content.  What CAN be observed: two keys that spell the same text)
+    if len({str(k) for k in keys}) != len(keys):
+        fail("one-member-per-field", "pairwise distinct keys", [repr(k) for k in keys])
+    if kind == "date":
+        if len(root.field_schema) != 3:
+            fail("compound-prepared", "three fields after __compound_init__", [f.name for f in root.field_schema])
+        k0 = schema.get("supplied") or 0
+        if [f.name for f in root.field_schema] != [f["name"] for f in schema["subs"]]:
+            fail("compound-prepared", [f["name"] for f in schema["subs"]], [f.name for f in root.field_schema], supplied=k0)
+        # no call on a Compound ever replaces a member (set() = explode assigns INTO the members)
+        bi = info.get("before_items") if info.get("target") is root else None
+        if bi is not None and not skipped and [id(v) for v in bi.values()] != [id(v) for v in dict.values(root)]:
+            fail("compound-members-kept", "the same member objects before and after the call",
+                 "members replaced by %s" % (op or {}).get("op"))
     for k, v in adopted:
         if dict.get(root, k) is not v:
             fail("element-of-field-class-adopted", "the Element argument is the stored member", "another object is stored")
@@ -185,7 +348,7 @@ def _op(m):
 class C10(Property):
     id = "C10"
     title = "Mapping elements hold exactly the schema's fields, always as elements"
-    proof_module = "Proofs.C10Keys"
+    proof_module = "Proofs.C10All"
     theorems = [
         "Flatland.C10.Proofs.mapinv_init",
         "Flatland.C10.Proofs.mapinv_step",
@@ -204,6 +367,33 @@ class C10(Property):
         "Flatland.C10.Proofs.set_undeclared_ignored",
         "Flatland.C10.Proofs.C10_full_fails",
         "Flatland.C10.Proofs.required_survives_optional_member",
+        # distinct keys (for every argument, no ArgExact)
+        "Flatland.C10.Proofs.nodup_init",
+        "Flatland.C10.Proofs.nodup_step",
+        "Flatland.C10.Proofs.nodup_run",
+        "Flatland.C10.Proofs.sparse_keys_nodup",
+        "Flatland.C10.Proofs.dict_keys_nodup",
+        "Flatland.C10.Proofs.kok_root_clause",
+        # Compound as a mapping
+        "Flatland.C10.Proofs.prepare_length",
+        "Flatland.C10.Proofs.prepare_prefix",
+        "Flatland.C10.Proofs.prepare_keys",
+        "Flatland.C10.Proofs.compound_set_keeps_members",
+        "Flatland.C10.Proofs.compound_inv_step",
+        "Flatland.C10.Proofs.compound_inv_run",
+        "Flatland.C10.Proofs.compound_keys_exact",
+        "Flatland.C10.Proofs.compound_keys_nodup",
+        "Flatland.C10.Proofs.compound_undeclared_rejected",
+        # the flat route (over Flatland/Flat.lean)
+        "Flatland.C10.Flat.shape_setFlat",
+        "Flatland.C10.Flat.setFlat_inv",
+        "Flatland.C10.Flat.setFlat_inv_compound",
+        "Flatland.C10.Flat.blank_inv",
+        "Flatland.C10.Flat.fromFlat_inv",
+        "Flatland.C10.Flat.fromFlat_keys_declared",
+        "Flatland.C10.Flat.fromFlat_keys_nodup",
+        "Flatland.C10.Flat.fromFlat_required_present",
+        "Flatland.C10.Flat.fromFlat_keys_exact",
     ]
     level_text = "proof (partial)"
     level_note = ("THEOREM (partial): mapinv_init/mapinv_step/mapinv_run — the mapping invariant holds initially and is "
@@ -224,8 +414,24 @@ class C10(Property):
                   "policy: KeyError after _reset()), set_undeclared_ignored (duck/None: same call without the undeclared "
                   "pairs). On model paths answering `unsupported` (Element handed to a dense Dict whose child is a "
                   "container, non-empty list handed to Dict.set ...) the step theorem is vacuous: the node is unchanged. "
-                  "Not proved: pairwise distinct keys of a SparseDict (dict semantics in Python, a list in the model). "
-                  "ORACLE ONLY: Compound (DateYYYYMMDD) roots; set_flat/from_flat; the `unsupported` paths. "
+                  "DISTINCT KEYS (h6): nodup_init/nodup_step/nodup_run, sparse_keys_nodup, dict_keys_nodup — the model keeps "
+                  "the underlying dict as a LIST of children; no call (item assignment of ANY Element, update in every form, "
+                  "|=, set under every policy, setdefault, set_default, clear, del, pop) ever leaves two members under one "
+                  "key; no ArgExact needed; kok_root_clause: the mapping clause of C08's `kok` at the root of every "
+                  "reachable state. COMPOUND (h6): a Compound is a Mapping that overrides only set(); model = dense dict "
+                  "node + prepare (lazy __compound_init__ of DateYYYYMMDD: a supplied list of <= 3 fields completed by "
+                  "generated year/month/day: prepare_length/_prefix/_keys) + compoundSet (explode as a PARAMETER under the "
+                  "documented contract; dateExplode = DateYYYYMMDD.explode) + compoundStep; compound_inv_step/_run, "
+                  "compound_keys_exact(_nodup) (keys exactly the prepared field names after every history), "
+                  "compound_set_keeps_members (set(value) keeps every member's identity/class/key/parent, for EVERY "
+                  "explode), compound_undeclared_rejected. FLAT ROUTE (h6, over Flatland/Flat.lean): setFlat_inv / "
+                  "setFlat_inv_compound — set_flat with ANY pair list from ANY state satisfying the invariant keeps it "
+                  "(keys declared, pairwise distinct, = declared for Dict/Compound, required present for 'required' "
+                  "SparseDict, every member of the shape its field class builds); blank_inv; fromFlat_inv and its clauses "
+                  "fromFlat_keys_declared/_nodup/_required_present/_keys_exact. The flat invariant is per mapping "
+                  "(shallow): it applies to every nested _set_flat call, a deep well-formedness predicate is not stated. "
+                  "ORACLE ONLY: Compound roots reached through set_flat inside a g1 history; the `unsupported` paths; "
+                  "Compound members of Dicts in the tree model (generated only in the flat stream). "
                   "Declarative Schema roots are modelled as Dict and compared")
     technique = "invariant proof over operation histories (Lean 4) + differential testing against the implementation"
     trusted_base = [
@@ -233,8 +439,12 @@ class C10(Property):
         "`isinstance(value, field_schema)` modelled as class identity or derivation (cid / isa)",
     ]
     assumptions = [
-        "Compound (DateYYYYMMDD) roots and the flat routes are generated and checked by the Python oracle only; "
-        "Compound's compose/explode logic belongs to C18",
+        "Compound: explode() implementations follow the documented contract (assign values to declared children through "
+        "self[name].set(v), or raise before touching anything); compose/explode VALUES belong to C18 — only "
+        "DateYYYYMMDD.explode on None/int/str/containers is modelled (dateExplode, ASCII digits)",
+        "Compound field names are distinct: NOT enforced by the code for a user-supplied field_schema (a supplied first "
+        "field named 'month' collides with the generated one) — hypothesis of compound_keys_exact, see c10_findings.json",
+        "flat stream: the flat model's text normalisation (Env.norm) is irrelevant to key skeletons and set to identity",
         "the model follows containers.py as it is: SparseDict.__delitem__/pop consult the field schema's optional "
         "(the member's only for an undeclared key), `.name` is the instance's",
         "field names are non-empty and distinct (Dict.of enforces distinctness)",
@@ -250,7 +460,7 @@ class C10(Property):
             "set/set_default/from_defaults/from_flat/set_flat. Cases the Lean model does not cover (flat routes, "
             "Compound, model paths answering unsupported) are marked oracle-only BEFORE the run and are not counted as "
             "validated traces (tag model=oracle-only). non-trivial = at least 3 calls changed the mapping or raised")
-    quick_n = 40000
+    quick_n = 32000
     thorough_n = 300000
 
     # cases are tiny (< 10 ms); the alarm only guards against a genuine hang (e.g. a cycle of parent pointers).
@@ -308,6 +518,28 @@ class C10(Property):
                             _op({"op": "ior", "v": {"d": [["month", 3], ["q", 1]]}}), _op({"op": "pop", "k": "day"}),
                             _op({"op": "clear"}), _op({"op": "set_flat", "pairs": [["when_year", "1999"], ["when_zz", "1"]]}),
                             _op({"op": "setdefault", "k": "year", "d": 1})]})
+        # the same Compound without the flat call: compared with the model (compoundStep), plus set / set_default,
+        # and a Compound whose first field the user supplied
+        out.append({"schema": dict(D, supplied=0), "init": {"route": "ctor", "value": None},
+                    "ops": [_op({"op": "setitem", "k": "year", "a": {"v": 2020}}), _op({"op": "setitem", "k": "zz", "a": {"v": 1}}),
+                            _op({"op": "ior", "v": {"d": [["month", 3], ["q", 1]]}}), _op({"op": "pop", "k": "day"}),
+                            _op({"op": "clear"}), _op({"op": "setdefault", "k": "year", "d": 1}),
+                            _op({"op": "set", "v": "2024-02-29"}), _op({"op": "set", "v": "junk"}), _op({"op": "set", "v": None}),
+                            _op({"op": "set", "v": "2024-02-29", "policy": "strict"}), _op({"op": "set_default"}),
+                            _op({"op": "update_items", "form": "ior", "items": [["day", {"new": 5}], ["zz", {"new": 1}]]})]})
+        D1 = dict(D, supplied=1, default="2001-02-03",
+                  subs=[_scalar(2, "integer", "y"), _scalar(3, "integer", "month"), _scalar(4, "integer", "day")])
+        out.append({"schema": D1, "init": {"route": "from_defaults", "value": None},
+                    "ops": [_op({"op": "set", "v": " 1999-12-31 "}), _op({"op": "delitem", "k": "y"}), _op({"op": "get", "k": "year"}),
+                            _op({"op": "set_default"})]})
+        # the flat route: Dict / SparseDict / required SparseDict with prefix-sharing field names, two rounds
+        leafk = {"type": "String", "strip": True}
+        for mode in ("dense", "sparse", "sparseReq"):
+            out.append({"flat": {"schema": {"t": "dict", "name": "m", "opt": False, "mode": mode, "fields": [
+                {"t": "leaf", "name": "a", "opt": False, "k": 0}, {"t": "leaf", "name": "ab", "opt": True, "k": 0},
+                {"t": "dict", "name": "c", "opt": True, "mode": "sparse", "fields": [{"t": "leaf", "name": "x", "opt": False, "k": 0}]}]},
+                "kinds": [leafk], "sep": "_", "nd": [48], "maxdigits": 4300,
+                "rounds": [[["m_abz", "1"], ["m_zz", "2"], ["q_a", "3"]], [["m_ab", "4"], ["m_c_x", "5"], ["m_c_zz", "6"], ["m_a", "7"]]]}})
         F = _map("schema", [_scalar(2, "string", "a"), _scalar(3, "integer", "b", opt=True)])
         out.append({"schema": F, "init": {"route": "from_flat", "pairs": [["a", "x"], ["b", "7"], ["zz", "1"]]}, "nomodel": True,
                     "ops": [_op({"op": "update", "kw": [["b", 1]]}), _op({"op": "delitem", "k": "a"}),
@@ -342,16 +574,30 @@ class C10(Property):
             cid = G.Counter()
             kind = rng.choice(["dict", "sparse", "sparse", "sparse_schema", "schema", "date"] if rng.random() < 0.5
                               else ["dict", "sparse", "sparse"])
+            if rng.random() < 0.10:
+                yield gen_flat_case(rng)
+                continue
             if kind == "date":
                 root_cid = cid()
-                schema = {"cid": root_cid, "k": "date", "name": rng.choice([None, "d"]), "opt": False, "policy": "subset",
-                          "minreq": False, "isa": [], "default": None,
-                          "subs": [_scalar(cid(), "integer", nm) for nm in ("year", "month", "day")]}
-                init = {"route": rng.choice(["ctor", "ctor", "set_flat"]), "value": None}
+                # the user supplies the first k fields (own names), the preparation generates the others
+                k = rng.choice([0, 0, 0, 1, 2, 3])
+                opt = rng.random() < 0.3
+                names = [("y", "m", "dd")[i] if i < k else ("year", "month", "day")[i] for i in range(3)]
+                subs = [_scalar(cid(), "integer", nm, opt=(rng.random() < 0.3 if i < k else opt)) for i, nm in enumerate(names)]
+                schema = {"cid": root_cid, "k": "date", "name": rng.choice([None, "d"]), "opt": opt, "policy": "subset",
+                          "minreq": False, "isa": [], "default": rng.choice([None, None, None, "2001-02-03", "junk"]),
+                          "subs": subs, "supplied": k}
+                flat = rng.random() < 0.3
+                init = {"route": rng.choice(["ctor", "ctor", "ctor_value", "set", "from_defaults", "set_default"] +
+                                            (["set_flat"] if flat else [])), "value": None}
+                init["value"] = G.gen_value(rng, schema, valid=True)
                 if init["route"] == "set_flat":
                     init["pairs"] = G.gen_flat_pairs(rng, schema)
-                ops = [_op(G.gen_map_op(rng, schema, valid=rng.random() < 0.8, flat=True)) for _ in range(rng.choice([1, 2, 4, 8]))]
-                yield {"schema": schema, "init": init, "ops": ops, "nomodel": True}
+                ops = [_op(G.gen_map_op(rng, schema, valid=rng.random() < 0.8, flat=flat)) for _ in range(rng.choice([1, 2, 4, 8, 12]))]
+                case = {"schema": schema, "init": init, "ops": ops}
+                if G.has_flat(case):
+                    case["nomodel"] = True
+                yield case
                 continue
             root_cid = cid()
             names = rng.sample(G.NAMES, rng.randint(1, 3))
@@ -393,7 +639,10 @@ class C10(Property):
         key = canon(case)
         if self._cache[0] == key:
             return self._cache[1]
-        ex = G.Exec(case, view, check)
+        if "flat" in case:
+            self._cache = (key, flat_run(case["flat"]))
+            return self._cache[1]
+        ex = Exec10(case, view, check)
         obs = ex.run()
         self._cache = (key, (obs, ex.failures))
         return self._cache[1]
@@ -410,14 +659,23 @@ class C10(Property):
         return super().compare(impl_obs, model_obs)
 
     def classify(self, case, failure):
+        if "flat" in case:
+            return None
         if foreign_name_arg(case, failure):
             return "KF-C10-a"
         return None
 
     def has_model(self, case):
+        if "flat" in case:
+            from harness import flatlib as fl
+            fc = case["flat"]
+            return not fl.digit_sep(fc["sep"]) and not any(x.get("name") == "" for x in fl.walk_schema(fc["schema"]))
         return not case.get("nomodel")
 
     def nontrivial(self, case, obs):
+        if "flat" in case:
+            sk = obs.get("skeletons") or []
+            return len(sk) >= 2 and any(a != b for a, b in zip(sk, sk[1:]))
         if any("view_raises" in st["view"] for st in obs["steps"]):
             return True
         steps = obs["steps"]
@@ -428,11 +686,27 @@ class C10(Property):
         return changed >= 3
 
     def tags(self, case, obs):
+        if "flat" in case:
+            fc = case["flat"]
+            sk = obs.get("skeletons") or []
+            root = fc["schema"]
+            t = ["model=" + ("compared" if self.has_model(case) else "oracle-only"), "route=flat-stream",
+                 "flat:root=" + (root.get("mode") or root["t"]), "flat:rounds=%d" % len(fc["rounds"])]
+            if "raise" in obs:
+                t.append("flat:raises:" + obs["raise"])
+            for a, b in zip(sk, sk[1:]):
+                if a != b:
+                    t.append("flat:round-changed-keys")
+                if isinstance(a, dict) and isinstance(b, dict) and len(b.get("d", [])) > len(a.get("d", [])):
+                    t.append("flat:member-materialised")
+            return sorted(set(t))
         if any("view_raises" in st["view"] for st in obs["steps"]):
             return ["view-raises"]
         s = case["schema"]
         t = ["model=" + ("oracle-only" if case.get("nomodel") else "compared"),
-             "kind=" + s["k"] + ("+required" if s["minreq"] else ""), "policy=" + s["policy"],
+             "kind=" + s["k"] + ("+required" if s["minreq"] else "") +
+             ("+supplied%d" % s["supplied"] if s["k"] == "date" and s.get("supplied") is not None else ""),
+             "policy=" + s["policy"],
              "class=" + ("derived-from-%s-parent(%s)" % ("used" if s["derive"].get("use") else "unused", s["derive"]["how"])
                          if s.get("derive") else "fresh"),
              "route=" + case["init"]["route"], "ops=%d" % len(case["ops"])]
@@ -467,6 +741,15 @@ class C10(Property):
         return sorted(set(t))
 
     def shrink_candidates(self, case):
+        if "flat" in case:
+            import copy
+            fc = case["flat"]
+            for i in range(len(fc["rounds"])):
+                if len(fc["rounds"]) > 1:
+                    c = copy.deepcopy(case); del c["flat"]["rounds"][i]; yield c
+                for j in range(len(fc["rounds"][i])):
+                    c = copy.deepcopy(case); del c["flat"]["rounds"][i][j]; yield c
+            return
         yield from G.shrink_history(case)
 
 
